@@ -97,6 +97,14 @@ CLAIMS = {
          "application of the equations. Sampled; only specs with Jacobian inf-norm <= 0.9 at the fixed point are judged.",
          "Trusted: vf/oracle_fgg.py TorchEval (Newton least fixed point verified by residual and exact Boolean support; gradients self-checked on a closed form), torch autograd/linalg, Hypothesis.",
          "DESIGN.md section 5, C03"),
+ 'C11': ("Hypothesis-generated admitted grammars run through the full option cross product, each compared with an independent reference (values and gradients) and with each other (metamorphic/differential); interpreter clause by differential execution of one driver under python, -O, -OO",
+         "Per generated grammar every admissible combination of {Real,Log,Viterbi,Bool} x {fixed-point,newton,linear} x j_precompute x {float64,float32} is run; "
+         "values must lie within the derived bound of the independent least fixed point, Real/Log gradients within 1e-6 of independent implicit differentiation, "
+         "Log = log(Real), Bool = support, Viterbi <= Log; batches of grammars are evaluated by the same driver under python, python -O and python -OO and must "
+         "produce identical output (assertions must be checks only). One listed open finding (j_precompute=True on rules with >= 2 edges) is routed by a "
+         "differential predicate (fails only with j_precompute=True) and reported as KNOWN-FINDING; everything else is a violation. Sampled.",
+         "Trusted: vf/oracle_fgg.py references, vf/c11_driver.py, the interpreter flags. bin/sum_product.py itself is exercised by C14's round trip, not here.",
+         "DESIGN.md section 5, C11"),
 }
 
 NOT_YET = {}   # id -> reason (filled while the framework is being built)
